@@ -5976,6 +5976,9 @@ class Path(Shape, MutableSequence):
     def __iadd__(self, other):
         if isinstance(other, str):
             self.parse(other)
+        elif isinstance(other, Path) and not other.transform.is_identity():
+            # A pending transform is part of the operand's geometry, as it is for the other shapes.
+            self.extend(map(copy, other.segments(transformed=True)))
         elif isinstance(other, (Path, Subpath)):
             self.extend(map(copy, list(other)))
         elif isinstance(other, Shape):
@@ -5996,7 +5999,7 @@ class Path(Shape, MutableSequence):
     def __radd__(self, other):
         if isinstance(other, str):
             path = Path(other)
-            path.extend(map(copy, self._segments))
+            path.extend(map(copy, self.segments(transformed=True)))
             return path
         elif isinstance(other, PathSegment):
             path = copy(self)
